@@ -53,14 +53,20 @@ func main() {
 		}
 	}
 	byProp := map[string][]*eng.Rule{}
+	propsWithRules := map[string]bool{}
 	for _, r := range rules.All() {
-		if len(want) > 0 && !want[r.Prop] {
+		propsWithRules[r.Prop] = true
+	}
+	for p := range propsWithRules {
+		if len(want) > 0 && !want[p] {
 			continue
 		}
-		if *only != "" && !strings.HasPrefix(r.ID, *only) {
-			continue
+		for _, r := range rules.RulesFor(p) {
+			if *only != "" && !strings.HasPrefix(r.ID, *only) {
+				continue
+			}
+			byProp[p] = append(byProp[p], r)
 		}
-		byProp[r.Prop] = append(byProp[r.Prop], r)
 	}
 	for p := range want {
 		if len(byProp[p]) == 0 {
